@@ -21,6 +21,9 @@ pub enum Renew {
     Same,
     /// previous generation (loses the conflict; must be treated as failure)
     Losing,
+    /// next generation modulo 256: at generation 255 it hands out generation
+    /// 0, which loses (a long-lived counter that wrapped)
+    Wrap,
 }
 
 /// `(addr, gen)` identity. Equality is on `(addr, gen)`; the identity with the
@@ -77,6 +80,7 @@ impl Identity for Id {
             Renew::Next => self.gen.checked_add(1).map(|g| Id { gen: g, ..*self }),
             Renew::Same => Some(*self),
             Renew::Losing => self.gen.checked_sub(1).map(|g| Id { gen: g, ..*self }),
+            Renew::Wrap => Some(Id { gen: self.gen.wrapping_add(1), ..*self }),
         }
     }
     fn addr(&self) -> u8 {
@@ -456,6 +460,9 @@ pub enum InvMode {
     Never,
     /// everything invalidates everything (backlog holds at most one item)
     Always,
+    /// a strictly newer version invalidates EVERY older item, whatever its
+    /// key (one-to-many); items of the same version coexist
+    Generation,
 }
 
 impl Invalidates for BKey {
@@ -465,6 +472,7 @@ impl Invalidates for BKey {
             InvMode::EqualKey => self.key == other.key,
             InvMode::Never => false,
             InvMode::Always => true,
+            InvMode::Generation => self.version > other.version,
         }
     }
 }
@@ -494,17 +502,23 @@ pub struct TableHandler {
     pub seen: [Option<u8>; 4],
     pub calls: Vec<(Vec<u8>, Option<Id>)>,
     pub record_calls: bool,
+    /// a handler that treats items as opaque blobs: even an empty one gets a
+    /// key (Foca itself must never hand it one)
+    pub accept_empty: bool,
 }
 
 impl TableHandler {
     pub fn new(mode: InvMode) -> Self {
-        Self { mode, accept_all: false, deny_mask: 0, seen: [None; 4], calls: Vec::new(), record_calls: false }
+        Self { mode, accept_all: false, deny_mask: 0, seen: [None; 4], calls: Vec::new(), record_calls: false, accept_empty: false }
     }
     pub fn should_add(&self, member: &Id) -> bool {
         member.addr >= 8 || self.deny_mask & (1 << member.addr) == 0
     }
     /// Harness-side prediction of `receive_item` without side effects.
     pub fn would_accept(&self, data: &[u8]) -> Result<Option<BKey>, HandlerErr> {
+        if data.is_empty() && self.accept_empty {
+            return Ok(Some(BKey { key: 3, version: 0, mode: self.mode }));
+        }
         if data.is_empty() || data[0] == 0xFF {
             return Err(HandlerErr);
         }
